@@ -13,6 +13,8 @@ mod pipeline;
 mod plan;
 mod refcodec;
 mod sc_agent;
+mod sc_codec;
+mod sc_tcpstream;
 mod sc_wire;
 
 use crate::choices::Choices;
@@ -227,6 +229,7 @@ fn write_evidence(dir: &str, prop: &str, thorough: bool, seed: u64, p: &plan::Pl
         "distinct_op_trigrams": total.grams.len(),
         "coverage_holes": zero_probes,
         "foreign_property_violations": foreign,
+        "foreign_property_discrepancies_followed": group("foreign."),
         "components": {
             "real": p.real,
             "simulated": p.simulated,
